@@ -67,7 +67,7 @@ Theorem FT_qr_hints : forall bp gr,
    bit hq (Q "transaction_id") (g 3%nat);
    sg (S "server_address_index") (g 4%nat); sg (S "server_port") (g 5%nat); sg (S "qr_transport_flags") (g 6%nat); sg (S "qr_type") (g 7%nat);
    sg (S "qr_sig_flags") (g 8%nat); sg (S "query_opcode") (g 9%nat); sg (S "qr_dns_flags") (g 10%nat); sg (S "query_rcode") (g 11%nat);
-   sg (S "query_classtype_index") (g 12%nat); sg (S "query_qdcount") (g 13%nat); sg (S "query_ancount") (g 14%nat);
+   sg (S "query_classtype_index") (g 12%nat); sg (S "query_qdcount") (g 13%nat); narrow16 (sg (S "query_ancount") (g 14%nat));
    sg (S "query_nscount") (g 15%nat); sg (S "query_arcount") (g 16%nat); sg (S "query_edns_version") (g 17%nat);
    sg (S "query_udp_size") (g 18%nat); sg (S "query_opt_rdata_index") (g 19%nat); sg (S "response_rcode") (g 20%nat);
    bit hq (Q "client_hoplimit") (g 21%nat); bit hq (Q "response_delay") (g 22%nat); bit hq (Q "query_name_index") (g 23%nat);
